@@ -41,11 +41,50 @@ def wide_stateful_leg(ctx):
                                   {"max_abs_diff": float(np.max(np.abs(bnd[:, lo:hi] - unb[:, lo:hi]))), "scale": scale})
 
 
+def shipped_state_leg(ctx, n):
+    """Every shipped path / profile family with random parameters (phases, offsets, seeds): the injection leaves the frame's
+    axes / estimates / metadata / generator as they were, the returned array is the delta, and the same description
+    injected again into the same frame returns the same signal (nothing of the first call lingers in frame or callables'
+    inputs)."""
+    import numpy as np
+    from ..adapters import injection as ad
+    rng = np.random.default_rng(ctx.seed + 303)
+    for case in ad.shipped_cases(rng, n):
+        fr, mk = ad.build_shipped(case)
+        kw = dict(integrate_path=case["iP"], integrate_t_profile=case["iT"], integrate_f_profile=case["iF"],
+                  doppler_smearing=case["smear"] != 0, t_subsamples=case["tsub"], f_subsamples=case["fsub"],
+                  smearing_subsamples=max(case["smear"], 1))
+        args = {k: (v if not isinstance(v, float) else round(v, 6)) for k, v in case.items()}
+        args.update({"action": "AddSignalShippedState"})
+        ctx.evaluations += 1
+        ctx.mark(("shipped-state", case["gname"], case["pk"], case["tk"], case["fk"], case["iP"], case["iT"], case["iF"], case["smear"], case["seed"]))
+        s0 = ad.frame_state(fr)
+        before = fr.data.copy()
+        try:
+            r1 = fr.add_signal(*mk(), **kw)
+        except Exception:
+            continue                                  # value / exception clauses of shipped families are C01's
+        chg = ad.same_state(s0, ad.frame_state(fr))
+        if chg is not None:
+            ctx.violation("Injection", "shipped:state_changed", dict(args, field=str(chg)), {"case": case, "changed": str(chg)})
+            continue
+        if not np.array_equal(fr.data, before + r1):
+            ctx.violation("Injection", "shipped:data_delta", args, {"case": case})
+            continue
+        keep = r1.copy()
+        r2 = fr.add_signal(*mk(), **kw)
+        if not np.array_equal(r1, keep):
+            ctx.violation("Injection", "shipped:earlier_returned_changed", args, {"case": case})
+        elif r2.shape != r1.shape or not np.array_equal(r2, r1):
+            ctx.violation("Injection", "shipped:repeat_differs", args, {"case": case, "max_abs_diff": float(np.max(np.abs(r2 - r1)))})
+
+
 def run(ctx):
     ctx.notes["rule"] = ("behaviours of 1-3 injections from Injection.tla over frames with prior content (pixel identities in "
                          "float32, every 10th loaded from a .fil), all bounding-range classes, both orders; distinct = "
                          "distinct (geometry, configuration sequence)")
     c01.run_for(ctx, "C06")
     wide_stateful_leg(ctx)
+    shipped_state_leg(ctx, ctx.pick(200, 4000))
     from .frame_t import frame_trace_leg
     frame_trace_leg(ctx, "C06")
